@@ -306,22 +306,27 @@ def main():
                     chk.violation("refused-silently|" + (c["bad"] or "library-refuses"), "`%s` was refused without any diagnostic (exit 0, nothing on stderr)" % tag, wit)
         # ---- fault enumeration: every write() of the fault-free run is once a kill point and once an I/O error
         fe = fault_enumeration(chk, root, cli, 3 if quick else 40)
+        ru = basename_reuse(chk, root, cli, quick)
+        chk.require(ru["scenarios"] >= 20, "only %d basename re-use scenarios ran" % ru["scenarios"])
         chk.require(n_acc >= 10 and n_ref >= 10, "too few accepted (%d) / refused (%d) command lines" % (n_acc, n_ref))
         chk.coverage.update({
-            "evaluations": len(results) * 2 + fe["runs"],
+            "evaluations": len(results) * 2 + fe["runs"] + 2 * ru["scenarios"],
             "distinct_nontrivial": len(classes) + fe["points"],
             "rule": "command lines generated over category, nuclide (list files and invalid), level, mode, window, seed, count 1..300, activity, MDL options, "
                     "option order and short/long forms, plus hostile variants (unknown option, option without argument as last token, malformed numbers, "
                     "bad activity/count, two basenames, missing/unwritable directory, bad MDL label); accepted ones: byte-identity with an API-only "
                     "renderer, two identical runs, companion keys, @status=0; refused ones: no record, no marker, a diagnostic; a third of them also in the "
                     "ASan build; fault enumeration: for selected command lines every write() of the fault-free run is replaced once by SIGKILL, ENOSPC "
-                    "and EIO (strace inject) and the implication '@status=0 => event file complete' is checked; distinct = command-line classes + fault points",
+                    "and EIO (strace inject) and the implication '@status=0 => event file complete' is checked; basename re-use: a complete run followed, on the same basename, by a run that is "
+                    "refused (by the library at initialisation, by the driver) or killed at one of its first writes - the same implication on what is left on disk; "
+                    "distinct = command-line classes + fault points",
             "samples": samples or [{"note": "none"}],
             "command_lines": len(results),
             "accepted": n_acc,
             "refused": n_ref,
             "classes": sorted(classes),
             "fault_enumeration": fe,
+            "basename_reuse": ru,
             "exhaustive": True,
         })
         chk.assumptions += ["on-disk state only changes at write(): syscall granularity is exhaustive for the two files",
@@ -394,6 +399,66 @@ def fault_enumeration(chk, root, cli, ncmd):
                 chk.violation("marker-without-complete-file|" + fault.split("=")[1],
                               "`%s` with %s injected at write #%d: the companion file carries @status=0 but the event file is not the complete one" % (" ".join(cmd), fault, k),
                               {"argv": cmd, "fault": fault, "write_index": k, "exit": rc, "stderr": err})
+    return info
+
+
+def basename_reuse(chk, root, cli, quick):
+    """A complete run, then another command line on the SAME basename that stops before or during its own run (refused by the
+    library at initialisation, refused by the driver, killed while initialising): whatever is on disk afterwards, a companion file
+    with '@status=0' must sit next to the complete event file it describes."""
+    rng = Rng(chk.seed, 1315)
+    env = build.lib_env("plain")
+    firsts = [["-s", "7", "-n", "5", "-c", "dbd", "-N", "Mo100", "-m", "1", "-l", "0"],
+              ["-s", "9", "-n", "3", "-c", "background", "-N", "Co60"],
+              ["-s", "5", "-n", "4", "-c", "dbd", "-N", "Zn70", "-m", "5", "-l", "0", "-e", "0.25"]]
+    seconds = [["-s", "7", "-n", "5", "-c", "dbd", "-N", "Mo100", "-m", "1", "-l", "9"],                    # level the library refuses
+               ["-s", "7", "-n", "5", "-c", "dbd", "-N", "Mo100", "-m", "20", "-l", "0"],                   # 4b mode on Mo100
+               ["-s", "7", "-n", "5", "-c", "dbd", "-N", "Zn70", "-m", "5", "-l", "0", "-e", "0.75", "-E", "0.25"],  # inverted window
+               ["-s", "7", "-n", "5", "-c", "dbd", "-N", "Zn70", "-m", "5", "-l", "0", "-e", "3.0"],        # window above the range
+               ["-s", "7", "-n", "5", "-c", "dbd", "-N", "Mo100", "-m", "1", "-l", "0", "-e", "1.0"],       # window on a mode without one
+               ["-s", "7", "-n", "5", "-c", "background", "-N", "Xx99"],                                     # refused by the driver
+               ["-s", "7", "-n", "0", "-c", "background", "-N", "Co60"]]                                     # nothing to do / refused count
+    jobs = [(i, j, False) for i in range(len(firsts)) for j in range(len(seconds))]
+    # a second run killed at its k-th write (strace): the first writes happen while the files are being set up
+    jobs += [(i, -k, True) for i in range(len(firsts)) for k in range(1, 4 if quick else 9)]
+    info = {"scenarios": 0, "marker_after_second_run": 0, "second_run_refused": 0}
+
+    def one(job):
+        i, j, kill = job
+        d = os.path.join(root, "reuse_%d_%s%d" % (i, "k" if kill else "s", abs(j)))
+        os.makedirs(d)
+        base = os.path.join(d, "out")
+        r1 = run([cli] + firsts[i] + [base], timeout=300, env=env)
+        t1, c1 = read(base + ".d0t"), read(base + ".d0c")
+        if kill:
+            cmd2 = firsts[(i + 1) % len(firsts)]
+            r2 = run(["strace", "-f", "-e", "trace=write", "-e", "inject=write:signal=SIGKILL:when=%d" % (-j), "-o", os.path.join(d, "t.log"), cli] + cmd2 + [base], timeout=300, env=env)
+        else:
+            cmd2 = seconds[j]
+            r2 = run([cli] + cmd2 + [base], timeout=300, env=env)
+        t2, c2 = read(base + ".d0t"), read(base + ".d0c")
+        shutil.rmtree(d, ignore_errors=True)
+        return job, r1[0], t1, c1, cmd2, r2[0], t2, c2
+
+    for job, rc1, t1, c1, cmd2, rc2, t2, c2 in pmap(one, jobs, jobs=NCPU):
+        i, j, kill = job
+        if rc1 != 0 or b"@status=0" not in (c1 or b""):
+            chk.inconclusive_("basename re-use: the first run `%s` did not complete (rc=%s)" % (" ".join(firsts[i]), rc1))
+            continue
+        info["scenarios"] += 1
+        if rc2 != 0:
+            info["second_run_refused"] += 1
+        if b"@status=0" in (c2 or b""):
+            info["marker_after_second_run"] += 1
+            m = re.search(rb"nb-events=(\d+)", c2 or b"")
+            recs = parse_d0t((t2 or b"").decode("latin-1")) if t2 is not None else None
+            want = int(m.group(1)) if m else None
+            ok = recs is not None and want is not None and len(recs) == want and [r[0] for r in recs] == list(range(want))
+            if not ok:
+                chk.violation("marker-without-complete-file|basename-reused",
+                              "after `%s` and then `%s`%s on the same basename the companion file carries @status=0 (nb-events=%s) but the event file holds %s records"
+                              % (" ".join(firsts[i]), " ".join(cmd2), " (killed at write %d)" % -j if kill else "", want, "unparsable" if recs is None else len(recs)),
+                              {"first": firsts[i], "second": cmd2, "killed_at_write": -j if kill else None, "exit_second": rc2})
     return info
 
 
